@@ -174,11 +174,7 @@ func (fr *Frame) staticCall(callee *ssa.Function, binds []*Val, args []*Val, st 
 	}
 	// 2. contract (in frame mode a callee whose contract lists assigned locations is inlined instead when
 	// possible, so that conditional writes such as lazily filled caches are judged under their real guard)
-	frameInline := false
-	if ct := eng.contractFor(callee); ct != nil && u.frameMode && len(ct.Assigns) > 0 && len(callee.Blocks) > 0 && !fr.onStack(callee) && instrCount(callee) <= maxInlineInstrs && fr.depth < maxInlineDepth {
-		frameInline = true
-	}
-	if ct := eng.contractFor(callee); ct != nil && !eng.forceInline[key] && !frameInline {
+	if ct := eng.contractFor(callee); ct != nil && !eng.forceInline[key] {
 		return fr.applyContract(ct, callee, nil, args, st, pos, resTy, key)
 	}
 	// 3. inline
